@@ -32,6 +32,8 @@ func init() {
 			{ID: "R10f", Floor: 2, Doc: "the index a wrap writes records true section offsets (= R03b)", Run: ruleR03b},
 			{ID: "R10g", Floor: 10, Doc: "no new dropped error in the container transforms (a failed write must fail the transform) (= R16h)", Run: ruleR16h},
 			{ID: "R10h", Floor: 5, Doc: "`car index`, the CLI wrap, re-emits the payload with offsets that advance by every section copied (= R19d)", Run: ruleR19d},
+			{ID: "R10l", Floor: 2, Doc: "a wrap indexes every valid CARv1: the CID-size limit is applied only to sections that get an index record (= R03c)", Run: ruleR03c},
+			{ID: "R10m", Floor: 7, Doc: "every header writer encodes the header it was given (nil roots stay null): a transform that re-writes a header must reproduce its bytes (= R01c)", Run: ruleR01c},
 		},
 	})
 }
